@@ -19,7 +19,7 @@
      (longs, datetime, duration); like; is; isEmpty, contains, containsAll, containsAny.
    Not in the fragment (see notes/C03.md): attribute access on non-path expressions, non-boolean `if` branches,
    tags, in, extension calls, set and record literals. *)
-From Cedar Require Import Typecheck ConformProofs ExprEq TypecheckProofs TypecheckProofs2 TypecheckProofs3 TypecheckProofs4 TypecheckMain TypecheckModes.
+From Cedar Require Import Typecheck ConformProofs ExprEq TypecheckProofs TypecheckProofs2 TypecheckProofs3 TypecheckProofs4 TypecheckMain TypecheckModes TypecheckSimple.
 
 Theorem c03_sound_partial :
   forall m sch env q es,
@@ -57,6 +57,14 @@ Theorem c03_strict_in_permissive_partial :
 Proof. exact strict_in_permissive_fragment. Qed.
 Print Assumptions c03_strict_in_permissive_partial.
 
+(* non-vacuity: the declarative judgement `Simple` (TypecheckSimple.v: declared accesses, == / < at equal scalar
+   types, has, !, ||, and the documented guard idioms `e has a && ..`, `if e has a then .. else ..`, nested
+   `e has a && e.a has b && ..`; it does not mention tc) implies acceptance by STRICT typechecking *)
+Theorem c03_accepts_guarded :
+  forall sch env cs e, Simple sch env cs e -> exists x c, tc Strict sch env cs e = Some (TBool x, c).
+Proof. exact simple_accepted. Qed.
+Print Assumptions c03_accepts_guarded.
+
 (* the store hypothesis is what the implementation-side checker (model: Conform.conf_entity) establishes *)
 Theorem c03_store_ok_from_checker :
   forall sch es, schema_wf sch = true ->
@@ -83,6 +91,27 @@ Example c03_accepts_guarded_example :
   tc Strict ex_sch ex_env [] (If ex_phas ex_puse (Lit (PBool false))) = Some (TBool BAny, []) /\
   tc Strict ex_sch ex_env [] (And ex_phas ex_puse) = Some (TBool BAny, [cap_attr (Var Principal) (s2str "o")]).
 Proof. repeat split; vm_compute; reflexivity. Qed.
+
+Example c03_simple_example :
+  Simple ex_sch ex_env [] (And ex_phas ex_puse) /\
+  Simple ex_sch ex_env [] (If ex_has ex_use (Lit (PBool false))).
+Proof.
+  split.
+  - eapply S_guard_and with (tp := ty_entity ex_user) (t := TLong) (req := false);
+      [apply A_var; reflexivity|vm_compute; reflexivity|vm_compute; reflexivity|].
+    eapply S_eq with (t := TLong); [| |reflexivity].
+    + eapply A_attr with (tp := ty_entity ex_user) (req := false);
+        [apply A_var; reflexivity|vm_compute; reflexivity|vm_compute; reflexivity|right; vm_compute; reflexivity].
+    + eapply A_attr with (tp := ty_entity ex_user) (req := true);
+        [apply A_var; reflexivity|vm_compute; reflexivity|vm_compute; reflexivity|left; reflexivity].
+  - eapply S_guard_if with (tp := ex_ctx) (t := TLong) (req := false);
+      [apply A_var; reflexivity|vm_compute; reflexivity|vm_compute; reflexivity| |apply S_bool].
+    eapply S_eq with (t := TLong); [| |reflexivity].
+    + eapply A_attr with (tp := ex_ctx) (req := false);
+        [apply A_var; reflexivity|vm_compute; reflexivity|vm_compute; reflexivity|right; vm_compute; reflexivity].
+    + eapply A_attr with (tp := ex_ctx) (req := true);
+        [apply A_var; reflexivity|vm_compute; reflexivity|vm_compute; reflexivity|left; reflexivity].
+Qed.
 
 Example c03_rejects_unguarded_example :
   tc Strict ex_sch ex_env [] ex_use = None /\ tc Strict ex_sch ex_env [] (Or ex_has ex_use) = None /\
